@@ -8,7 +8,7 @@ from sa.engine.cfg import normally_dominates
 from sa.engine.consts import UNKNOWN
 from sa.engine.context import Ctx
 from sa.engine.guards import path_conditions
-from sa.engine.loader import AnalysisError, dotted, norm, short, walk_own
+from sa.engine.loader import anorm, local_names, AnalysisError, dotted, norm, short, walk_own
 from sa.engine.report import Finding, RuleReport
 from sa.rules.common import INIT, X, raised_class
 
@@ -55,11 +55,13 @@ def rule_limit(ctx: Ctx) -> RuleReport:
     else:
         conds, opaque, _ = path_conditions(rf.node, raises[0])
         cs = {str(c) for c in conds}
-        if cs == {"max_file_size > 0", "file_size > max_file_size"} and not opaque:
+        import re as _re
+        szv = next((m.group(1) for c_ in cs for m in [_re.fullmatch(r"(\w+) > max_file_size", c_)] if m), None)
+        if szv is not None and cs == {"max_file_size > 0", f"{szv} > max_file_size"} and not opaque:
             rep.ok({"read_file": "raise iff max_file_size > 0 and file_size > max_file_size"})
         else:
             rep.fail(Finding("C12-LIMIT", INIT, "read_file", " and ".join(sorted(cs) + opaque), f"the too-large test is `{' and '.join(sorted(cs) + opaque)}`; documented: max_file_size > 0 and file_size > max_file_size (0 disables, limit inclusive)", line=raises[0].lineno))
-        fs = [n for n in walk_own(rf.node) if isinstance(n, ast.Assign) and norm(n.targets[0]) == "file_size"]
+        fs = [n for n in walk_own(rf.node) if isinstance(n, ast.Assign) and norm(n.targets[0]) == (szv or "file_size")]
         if len(fs) == 1 and norm(fs[0].value) == "path.stat().st_size":
             rep.ok({"read_file": "file_size = path.stat().st_size"})
         else:
@@ -90,7 +92,9 @@ def rule_limit(ctx: Ctx) -> RuleReport:
     if len(r7) == 1:
         conds, opaque, _ = path_conditions(s7.node, r7[0])
         cs = {str(c) for c in conds}
-        if cs == {"archive_size > MAX_7Z_FILE_SIZE"} and not opaque:
+        import re as _re
+        asz = next((m.group(1) for c_ in cs for m in [_re.fullmatch(r"(\w+) > MAX_7Z_FILE_SIZE", c_)] if m), None)
+        if asz is not None and cs == {f"{asz} > MAX_7Z_FILE_SIZE"} and not opaque:
             rep.ok({"7z": "raise iff archive_size > MAX_7Z_FILE_SIZE"})
         else:
             rep.fail(Finding("C12-LIMIT", ARCH, s7.qual, " and ".join(sorted(cs) + opaque), "7z size test is not `archive_size > MAX_7Z_FILE_SIZE`", line=r7[0].lineno))
@@ -99,7 +103,7 @@ def rule_limit(ctx: Ctx) -> RuleReport:
             rep.ok({"7z": "size test dominates SevenZipFile(...)"})
         else:
             rep.fail(Finding("C12-LIMIT", ARCH, s7.qual, "SevenZipFile(file_like, 'r')", "the 7z archive is opened before / without the 100 MB test", line=s7.node.lineno))
-        sz = [n for n in s7.node.body if isinstance(n, ast.Assign) and norm(n.targets[0]) == "archive_size"]
+        sz = [n for n in s7.node.body if isinstance(n, ast.Assign) and norm(n.targets[0]) == (asz or "archive_size")]
         seq = [norm(s) for s in s7.node.body[:6]]
         if sz and norm(sz[0].value) == "file_like.tell()" and "file_like.seek(0, os.SEEK_END)" in seq and seq.index("file_like.seek(0, os.SEEK_END)") < seq.index(norm(sz[0])):
             rep.ok({"7z": "archive_size = position after seek to the end"})
@@ -108,13 +112,15 @@ def rule_limit(ctx: Ctx) -> RuleReport:
     else:
         rep.fail(Finding("C12-LIMIT", ARCH, s7.qual, "ExtractionFileTooLargeError", "the 7z size limit is no longer enforced", line=s7.node.lineno))
     # per-member limits dominate the read
-    for fnq, readcall, sizeattr in (("_extract_from_zip_optimized", "zf.read", "info.file_size"), ("_extract_from_tar_optimized", "tf.extractfile", "member.size")):
+    for fnq, readattr, sattr in (("_extract_from_zip_optimized", "read", "file_size"), ("_extract_from_tar_optimized", "extractfile", "size")):
         f = ctx.p.func(ARCH, fnq)
         rep.unit(f.key)
-        rcs = [c for c in calls_in(f) if norm(c.func) == readcall]
+        rcs = [c for c in calls_in(f) if isinstance(c.func, ast.Attribute) and c.func.attr == readattr and isinstance(c.func.value, ast.Name) and c.args and isinstance(c.args[0], ast.Name)]
         if not rcs:
-            raise AnalysisError(f"C12-LIMIT: {readcall} call vanished from {fnq}")
+            raise AnalysisError(f"C12-LIMIT: <archive>.{readattr}(<member>) call vanished from {fnq}")
         for c in rcs:
+            readcall = norm(c.func)
+            sizeattr = f"{c.args[0].id}.{sattr}"
             conds, opaque, _ = path_conditions(f.node, c, terminals=("continue", "return", "break"))
             cs = {str(x) for x in conds}
             if f"_config.max_memory_size >= {sizeattr}" in cs:
@@ -124,8 +130,8 @@ def rule_limit(ctx: Ctx) -> RuleReport:
             arg = norm(c.args[0]) if c.args else "?"
             if not sizeattr.startswith(arg + "."):
                 rep.fail(Finding("C12-LIMIT", ARCH, fnq, short(c), f"the member that is read (`{arg}`) is not the member whose size was tested (`{sizeattr}`)", line=c.lineno))
-            if readcall == "tf.extractfile":
-                if "member.isreg()" in cs and not any("isreg" in o or "islnk" in o for o in opaque):
+            if readattr == "extractfile":
+                if f"{c.args[0].id}.isreg()" in cs and not any("isreg" in o or "islnk" in o for o in opaque):
                     rep.ok({fnq: "only regular members are read (size tested = size read)"})
                 else:
                     rep.fail(Finding("C12-LIMIT", ARCH, fnq, short(c), "link members are read: tarfile follows the link, so the bytes read belong to another member than the one whose (zero) size was tested", line=c.lineno))
@@ -133,10 +139,11 @@ def rule_limit(ctx: Ctx) -> RuleReport:
     ex = [c for c in calls_in(s7) if isinstance(c.func, ast.Attribute) and c.func.attr == "extractall"]
     for c in ex:
         names = {n.id for a in list(c.args) + [k.value for k in c.keywords] for n in ast.walk(a) if isinstance(n, ast.Name)}
-        if "files_to_process" in names or any(k.arg in ("targets", "members", "names") for k in c.keywords):
+        work = {x.func.value.id for x in calls_in(s7) if isinstance(x.func, ast.Attribute) and x.func.attr == "append" and isinstance(x.func.value, ast.Name) and x.args and isinstance(x.args[0], ast.Tuple)}
+        if names & work or any(k.arg in ("targets", "members", "names") for k in c.keywords):
             rep.ok({"7z": "extractall restricted to the filtered members"})
         else:
-            rep.fail(Finding("C12-LIMIT", ARCH, s7.qual, short(c), "szf.extractall() decompresses and writes every member; the per-member size filter only decides which files are read back, so oversize members are still unpacked to disk", line=c.lineno))
+            rep.fail(Finding("C12-LIMIT", ARCH, s7.qual, anorm(c, s7.node), "extractall() decompresses and writes every member; the per-member size filter only decides which files are read back, so oversize members are still unpacked to disk", line=c.lineno))
     pe = ctx.p.func(ARCH, "_process_archive_entry")
     tests = [norm(n.test) for n in walk_own(pe.node) if isinstance(n, ast.If) and "MAX_ARCHIVE_FILE_SIZE" in norm(n.test)]
     if tests == ["len(file_data) > MAX_ARCHIVE_FILE_SIZE"]:
@@ -264,8 +271,10 @@ def rule_amp(ctx: Ctx) -> RuleReport:
                     seq_like = _is_seq_literal(seq) or (isinstance(seq, ast.Name) and _holds_sequence(fi, seq.id))
                     if seq_like and cn.is_count(fi, cnt):
                         count_expr, what = cnt, norm(n)
+                        what_key = anorm(n, fi.node)
             elif isinstance(n, ast.Call) and (dotted(n.func) or "") in ("bytes", "bytearray") and len(n.args) == 1 and cn.is_count(fi, n.args[0]):
                 count_expr, what = n.args[0], norm(n)
+                what_key = anorm(n, fi.node)
             if count_expr is None:
                 continue
             rep.unit(fi.key)
@@ -282,7 +291,7 @@ def rule_amp(ctx: Ctx) -> RuleReport:
             if bounded:
                 rep.ok({"site": f"{fi.qual}: {what[:60]}", "bounded_by": bounded})
             else:
-                rep.fail(Finding("C12-AMP", fi.module.rel, fi.qual, what[:140], f"`{what[:80]}` allocates `{cname}` items where `{cname}` is a count declared inside the input and nothing bounds it (guards: {[str(c) for c in conds] + opaque}): a few bytes of input buy an arbitrarily large allocation", line=n.lineno))
+                rep.fail(Finding("C12-AMP", fi.module.rel, fi.qual, what_key[:140], f"`{what[:80]}` allocates `{cname}` items where `{cname}` is a count declared inside the input and nothing bounds it (guards: {[str(c) for c in conds] + opaque}): a few bytes of input buy an arbitrarily large allocation", line=n.lineno))
     return rep
 
 
@@ -418,8 +427,8 @@ def rule_empty(ctx: Ctx) -> RuleReport:
         rep.fail(Finding("C12-EMPTY", ODS, f.qual, "return None, ''", "_extract_cell_value never reports an empty cell as None", line=f.node.lineno))
     # the caps themselves: both repeats have an `> CONST` escape for empty content
     sh = ctx.p.func(ODS, "_extract_sheet")
-    tests = [norm(n.test) for n in walk_own(sh.node) if isinstance(n, ast.If)]
-    for want in ("typed_value is None and cell_repeat > 100", "row_repeat > 100 and all((v[0] is None for v in row_values))"):
+    tests = [anorm(n.test, sh.node) for n in walk_own(sh.node) if isinstance(n, ast.If)]
+    for want in ("v0 is None and v1 > 100", "v0 > 100 and all((v1[0] is None for v1 in v2))"):
         if want in tests:
             rep.ok({"cap": want})
         else:
